@@ -1107,12 +1107,22 @@ impl<'a> Gen<'a> {
                 (b, t)
             }
             3 => {
-                // match on an int with value arms
-                let (scr, _) = self.expr(&Ty::Int, d);
+                // match on an int (or on an int|string value) with value arms; candidates of a union-typed scrutinee may be
+                // of either member type, whatever the scrutinee holds
+                let union_scr = self.p.type_tests && self.pct(30);
+                let (scr, _) = if union_scr { self.union_scrutinee(d) } else { self.expr(&Ty::Int, d) };
+                if union_scr {
+                    self.tag("stm:match-value-on-union");
+                }
                 let mut arms = Vec::new();
                 let mut tys = Vec::new();
                 for _ in 0..self.rng.below(3) {
-                    let cands = (0..1 + self.rng.below(2)).map(|_| self.expr(&Ty::Int, d.min(1)).0).collect();
+                    let cands = (0..1 + self.rng.below(2))
+                        .map(|_| {
+                            let t = if union_scr && self.rng.chance(1, 2) { Ty::Str } else { Ty::Int };
+                            self.expr(&t, d.min(1)).0
+                        })
+                        .collect();
                     let (b, t) = self.value_block(goal, d);
                     arms.push(Arm::Value(cands, Box::new(b)));
                     tys.push(t);
